@@ -303,8 +303,13 @@ type finderCase struct {
 	fullOnly      bool
 	target        uint64
 	bogus         []int // replies sent before the honest one: heights on the local chain (-1: nil)
+	foreign       []bool // parallel to bogus: the reply carries an id that is NOT the local main-chain id at that height
 	noReply       bool
+	replyIds      []string // out: every reply as the model's `tok/no` (or nil)
+	ancHash       []byte   // out: the id the finder handed on
 }
+
+var foreignHash = []byte("c17-foreign-block-id-0123456789a")
 
 // runFinder runs the real Finder.start() goroutine: anchors from the real getAnchorsNew of the local
 // chain DB, the peer's answer from the real findAncestor of the remote chain DB.
@@ -330,12 +335,17 @@ func runFinder(fc *finderCase) (res string, replies []string) {
 		switch m := msg.(type) {
 		case *message.GetSyncAncestor:
 			var send []*types.BlockInfo
-			for _, h := range fc.bogus {
+			for k, h := range fc.bogus {
 				if h < 0 {
 					continue // a nil reply is always accepted; bogus ones are non-nil
 				}
-				send = append(send, &types.BlockInfo{Hash: fc.local.c.hashAt(uint64(h)), No: uint64(h)})
+				hash := fc.local.c.hashAt(uint64(h))
+				if k < len(fc.foreign) && fc.foreign[k] {
+					hash = foreignHash
+				}
+				send = append(send, &types.BlockInfo{Hash: hash, No: uint64(h)})
 				replies = append(replies, strconv.Itoa(h))
+				fc.replyIds = append(fc.replyIds, fmt.Sprintf("%d/%d", tok(hash), h))
 			}
 			if !fc.noReply {
 				anc, err := fc.remote.cs.VerifC17FindAncestor(m.Hashes)
@@ -345,8 +355,10 @@ func runFinder(fc *finderCase) (res string, replies []string) {
 				send = append(send, anc)
 				if anc == nil {
 					replies = append(replies, "nil")
+					fc.replyIds = append(fc.replyIds, "nil")
 				} else {
 					replies = append(replies, strconv.FormatUint(anc.No, 10))
+					fc.replyIds = append(fc.replyIds, fmt.Sprintf("%d/%d", tok(anc.Hash), anc.No))
 				}
 			}
 			go func() {
@@ -368,9 +380,7 @@ func runFinder(fc *finderCase) (res string, replies []string) {
 				done <- "noancestor"
 			} else {
 				s := fmt.Sprintf("ancestor:%d", m.Ancestor.No)
-				if string(m.Ancestor.Hash) != string(fc.local.c.hashAt(m.Ancestor.No)) {
-					s += "!notlocal"
-				}
+				fc.ancHash = m.Ancestor.Hash
 				done <- s
 			}
 		case *message.SyncStop:
@@ -402,6 +412,10 @@ func runFinder(fc *finderCase) (res string, replies []string) {
 	close(giveUp)
 	f.VerifC17Stop()
 	return
+}
+
+func replay0(L, R, f int, fc *finderCase, res string) map[string]interface{} {
+	return map[string]interface{}{"local_best": L, "remote_best": R, "fork_point": f, "full_only": fc.fullOnly, "target": fc.target, "replies": fc.replyIds, "got": res}
 }
 
 func finderFlows(run *vh.Run, n int) {
@@ -462,6 +476,7 @@ func finderFlows(run *vh.Run, n int) {
 		if !fc.fullOnly {
 			for k := rng.Intn(3); k > 0; k-- {
 				fc.bogus = append(fc.bogus, rng.Intn(L+1)) // below LastAnchor ⇒ skipped, else taken
+				fc.foreign = append(fc.foreign, rng.Intn(3) == 0)
 			}
 			fc.noReply = rng.Intn(12) == 0
 		}
@@ -472,6 +487,29 @@ func finderFlows(run *vh.Run, n int) {
 		}
 		op := fmt.Sprintf("finder %d %d %d %s %s", b2i(fc.fullOnly), L, fc.target, rs, patternOf(lc, rc))
 		run.Op(op, res, strings.HasPrefix(res, "ancestor"))
+		// the same run with the ids: what is handed on is (id, height)
+		ids := "-"
+		if len(fc.replyIds) > 0 {
+			ids = strings.Join(fc.replyIds, ",")
+		}
+		var lm [][]byte
+		for _, b := range lc.blocks {
+			lm = append(lm, b.GetHash())
+		}
+		resi := res
+		if strings.HasPrefix(res, "ancestor:") {
+			resi = fmt.Sprintf("ancestor:%d/%s", tok(fc.ancHash), res[9:])
+		}
+		run.Op(fmt.Sprintf("finderi %d %d %d %s %s %s", b2i(fc.fullOnly), L, fc.target, ids, patternOf(lc, rc), tokList(lm)), resi, strings.HasPrefix(res, "ancestor"))
+		if strings.HasPrefix(res, "ancestor:") {
+			if a, e := strconv.Atoi(res[9:]); e == nil && string(fc.ancHash) != string(lc.hashAt(uint64(a))) {
+				run.Count("finder:handed-on-foreign-id")
+				// only a reply that carried that very id can be the cause (finder_id_own_main_chain_partial: truthful replies)
+				if string(fc.ancHash) != string(foreignHash) {
+					run.Fail("the finder handed on an id that is neither the local main-chain id nor an id a reply carried", replay0(L, R, f, fc, res))
+				}
+			}
+		}
 		run.Count("finder:" + strings.SplitN(res, ":", 2)[0])
 		// oracle
 		hc := highestCommon(lc, rc)
